@@ -64,6 +64,7 @@ int main(int argc, char** argv) {
                 else if (t == "weld") mb.push_back(MobilizedBody::Weld(P, XPF, body, XBM));
                 else throw std::runtime_error("unknown mobilizer type " + t);
             }
+            Force::DiscreteForces applied(forces, matter);
             system.realizeTopology();
             State s = system.getDefaultState();
             system.realizeModel(s);
@@ -164,6 +165,65 @@ int main(int argc, char** argv) {
                 system.realize(s, Stage::Acceleration);
                 js << ",\"udot\":[";
                 for (int j = 0; j < nu; ++j) js << (j ? "," : "") << num(s.getUDot()[j]);
+                js << "]";
+                // the same state with applied body forces F (torque, force at the body origin, in Ground) and the
+                // mobility forces tau the spec computed so that udot = ud
+                const int nb = matter.getNumBodies();
+                Vector_<SpatialVec> bodyF(nb, SpatialVec(Vec3(0), Vec3(0)));
+                for (int i = 1; i <= N; ++i) bodyF[mb[i].getMobilizedBodyIndex()] = SpatialVec(vec(c["F"][i - 1]["t"]), vec(c["F"][i - 1]["f"]));
+                Vector tau(nu), ud(nu);
+                { int j = 0; for (int i = 0; i < N; ++i) for (int k = 0; k < mb[i + 1].getNumU(s); ++k, ++j) { ud[j] = c["ud"][i][k].dbl(); tau[j] = c["tau"][j].dbl(); } }
+                applied.setAllBodyForces(s, bodyF);
+                applied.setAllMobilityForces(s, tau);
+                system.realize(s, Stage::Acceleration);
+                js << ",\"udotF\":[";
+                for (int j = 0; j < nu; ++j) js << (j ? "," : "") << num(s.getUDot()[j]);
+                js << "]";
+                // inverse dynamics of the prescribed udot with the same applied forces: zero residual; with no
+                // applied forces: M ud + bias
+                Vector res0, res1;
+                matter.calcResidualForceIgnoringConstraints(s, tau, bodyF, ud, res0);
+                matter.calcResidualForceIgnoringConstraints(s, Vector(), Vector_<SpatialVec>(), ud, res1);
+                double errRes = 0; for (int j = 0; j < nu; ++j) errRes = std::max(errRes, std::abs(res0[j]));
+                js << ",\"errResidual\":" << num(errRes) << ",\"MudBias\":[";
+                for (int j = 0; j < nu; ++j) js << (j ? "," : "") << num(res1[j]);
+                js << "]";
+                // J'F through the operator
+                Vector JtF; matter.multiplyBySystemJacobianTranspose(s, bodyF, JtF);
+                js << ",\"JtF\":[";
+                for (int j = 0; j < nu; ++j) js << (j ? "," : "") << num(JtF[j]);
+                js << "],\"A\":[";
+                for (int i = 1; i <= N; ++i) { const SpatialVec& A = mb[i].getBodyAcceleration(s); js << (i > 1 ? "," : "") << "{\"aw\":" << jv(A[0]) << ",\"a\":" << jv(A[1]) << "}"; }
+                js << "]";
+                // mobilizer reactions
+                Vector_<SpatialVec> RM, RMfb; matter.calcMobilizerReactionForces(s, RM); matter.calcMobilizerReactionForcesUsingFreebodyMethod(s, RMfb);
+                double errFb = 0, errFind = 0;
+                js << ",\"reactM\":[";
+                for (int i = 1; i <= N; ++i) { const MobilizedBodyIndex bx = mb[i].getMobilizedBodyIndex();
+                    js << (i > 1 ? "," : "") << "{\"t\":" << jv(RM[bx][0]) << ",\"f\":" << jv(RM[bx][1]) << "}";
+                    const SpatialVec d = RM[bx] - RMfb[bx]; errFb = std::max(errFb, std::max(d[0].norm(), d[1].norm()));
+                    const SpatialVec e = RM[bx] - mb[i].findMobilizerReactionOnBodyAtMInGround(s); errFind = std::max(errFind, std::max(e[0].norm(), e[1].norm())); }
+                js << "],\"reactF\":[";
+                for (int i = 1; i <= N; ++i) { const SpatialVec r = mb[i].findMobilizerReactionOnParentAtFInGround(s);
+                    js << (i > 1 ? "," : "") << "{\"t\":" << jv(r[0]) << ",\"f\":" << jv(r[1]) << "}"; }
+                js << "],\"errFreebody\":" << num(errFb) << ",\"errFindReaction\":" << num(errFind);
+            }
+            {   // fitting: the spec's X_FM / V_FM for a second coordinate set must be reproduced by the fitting calls
+                js << ",\"fit\":[";
+                for (int i = 1; i <= N; ++i) {
+                    const mj::Value& f = c["fitTarget"][i - 1];
+                    Mat33 Rm; for (int a = 0; a < 3; ++a) for (int b = 0; b < 3; ++b) Rm(a, b) = f["R"][a][b].dbl();
+                    const Rotation R(Rm); const Vec3 p = vec(f["p"]), w = vec(f["w"]), v = vec(f["v"]);
+                    State s1 = s, s2 = s;
+                    mb[i].setQToFitTransform(s1, Transform(R, p)); system.realize(s1, Stage::Position);
+                    mb[i].setUToFitVelocity(s1, SpatialVec(w, v)); system.realize(s1, Stage::Velocity);
+                    mb[i].setQToFitRotation(s2, R); mb[i].setQToFitTranslation(s2, p); system.realize(s2, Stage::Position);
+                    mb[i].setUToFitAngularVelocity(s2, w); mb[i].setUToFitLinearVelocity(s2, v); system.realize(s2, Stage::Velocity);
+                    const Transform X1 = mb[i].getMobilizerTransform(s1), X2 = mb[i].getMobilizerTransform(s2);
+                    const SpatialVec V1 = mb[i].getMobilizerVelocity(s1), V2 = mb[i].getMobilizerVelocity(s2);
+                    js << (i > 1 ? "," : "") << "{\"R1\":" << jm(X1.R().asMat33()) << ",\"p1\":" << jv(X1.p()) << ",\"R2\":" << jm(X2.R().asMat33()) << ",\"p2\":" << jv(X2.p())
+                       << ",\"w1\":" << jv(V1[0]) << ",\"v1\":" << jv(V1[1]) << ",\"w2\":" << jv(V2[0]) << ",\"v2\":" << jv(V2[1]) << "}";
+                }
                 js << "]";
             }
             js << ",\"exc\":\"\"}";
